@@ -269,6 +269,21 @@ static int exec_op_inner(jval *op, int incb)
 		case 7: { struct event *x = event_new(base, 1000000, EV_READ, nop_cb, NULL); if (x) { r = event_add(x, NULL); event_free(x); } break; }
 		case 8: { struct event *x = event_new(base, SIGUSR2, EV_SIGNAL | EV_READ, nop_cb, NULL); r = x ? 1 : 0; if (x) event_free(x); break; }
 		case 9: r = event_base_priority_init(base, 0); break;
+		case 11: { /* an fd closed while its event is still added: select()/poll() fail or report it; the loop call must
+			    * still return with the lock state it was entered with */
+			int pp[2]; struct event *x;
+			if (pipe(pp) == 0) {
+				x = event_new(base, pp[0], EV_READ | EV_PERSIST, nop_cb, NULL);
+				if (x) {
+					event_add(x, NULL);
+					close(pp[0]);
+					pol = "exact"; loop_waits = 0; blocked = 0; forced = 0;
+					r = event_base_loop(base, EVLOOP_NONBLOCK);
+					event_del(x); event_free(x);
+				} else close(pp[0]);
+				close(pp[1]);
+			}
+			break; }
 		case 10: { fd = open("/etc/passwd", O_RDONLY); struct event *x = event_new(base, fd, EV_READ | EV_PERSIST, nop_cb, NULL); if (x) { r = event_add(x, &one); event_free(x); } close(fd); break; }
 		}
 		return r;
